@@ -3,6 +3,7 @@ package host
 import (
 	"context"
 	"fmt"
+	"net"
 	"os"
 	"path/filepath"
 	"strings"
@@ -62,6 +63,7 @@ func TestC18(t *testing.T) {
 		cli := raw.(vp.Cli)
 		var conns []*grpc.ClientConn
 		var handles []*vp.AcceptHandle
+		var userListeners []net.Listener
 		id := uint32(300)
 		for _, st := range p.Steps {
 			id++
@@ -101,6 +103,17 @@ func TestC18(t *testing.T) {
 				if _, isGRPC := cli.(*vp.GRPCCli); isGRPC {
 					_, serr = cli.Do("grpc-accept-raw", "id", id)
 				}
+			case "h-accept-undialled": // the host accepts a brokered id that the plugin never dials; Kill comes inside its window
+				switch x := cli.(type) {
+				case *vp.RPCCli:
+					go x.Broker.Accept(id)
+				case *vp.GRPCCli:
+					// (a listener handed to the user is the user's to close: done right after Kill)
+					if ln, err := x.Broker.Accept(id); err == nil {
+						userListeners = append(userListeners, ln)
+					}
+				}
+				time.Sleep(50 * time.Millisecond)
 			case "p-accept-twice": // the plugin announces one brokered id twice and nobody ever dials it
 				if _, isGRPC := cli.(*vp.GRPCCli); isGRPC {
 					_, serr = cli.Do("grpc-accept-twice", "id", id)
@@ -163,6 +176,9 @@ func TestC18(t *testing.T) {
 		ok, _, _ := within(30*time.Second, l.Client.Kill)
 		close(stopStorm)
 		stormWG.Wait()
+		for _, ln := range userListeners {
+			ln.Close()
+		}
 		o.KillReturned = ok
 		if p.KeepConns {
 			for _, cc := range conns {
